@@ -833,7 +833,7 @@ class LearnerND(BaseLearner):
             # this is the first point, nothing to do, just set the range
             self._min_value = np.min(new_output)
             self._max_value = np.max(new_output)
-            self._old_scale = self._scale or 1
+            self._old_scale = self._scale
             return False
 
         # if range in one or more directions is doubled, then update all losses
@@ -856,7 +856,9 @@ class LearnerND(BaseLearner):
 
         self._output_multiplier = scale_multiplier
 
-        scale_factor = self._scale / self._old_scale
+        # The range was a single value so far: any growth counts as infinite
+        # (comparing with an absolute 1 would depend on the unit of the output).
+        scale_factor = self._scale / self._old_scale if self._old_scale else np.inf
         if scale_factor > self._recompute_losses_factor:
             self._old_scale = self._scale
             self._recompute_all_losses()
